@@ -794,6 +794,7 @@ def apply_ops(r, ops, o=None):
                 g.changePitch(px * op[1], py * op[1])
         elif kind == "setMaterial":
             objs[op[1]].setProperties(op[2])
+            objs[op[1]].material.adjustTD(objs[op[1]].p.theoreticalDensityFrac)
             objs[op[1]].clearCache()
         elif kind == "setInputTemperature":
             objs[op[1]].inputTemperatureInC = op[2]
@@ -801,6 +802,7 @@ def apply_ops(r, ops, o=None):
             objs[op[1]].clearCache()
         elif kind == "removeAssembly":
             r.core.removeAssembly(objs[op[1]], discharge=False)
+            r.core.p.maxAssemNum = r.core.getMaxParam("assemNum")
 
 
 # --------------------------------------------------------------------------- DB round trip
@@ -1682,6 +1684,8 @@ def layout_borne_edit(rng, o, r, ops, allow_tree_change=False):
         kinds += ["rotate", "rotate", "pitch"]
     elif gname == "CartesianGrid":
         kinds += ["pitch"]
+    if len(assems) >= 2:
+        kinds += ["swap"]
     chosen = rng.sample(kinds, rng.randint(1, 3))
     if allow_tree_change and len(assems) > 2:
         chosen.append("removeAssembly")
@@ -1712,6 +1716,7 @@ def layout_borne_edit(rng, o, r, ops, allow_tree_change=False):
                 names = [m for m in SWAP_MATERIALS if m != type(c.material).__name__]
                 m = rng.choice(names)
                 c.setProperties(m)
+                c.material.adjustTD(c.p.theoreticalDensityFrac)     # as the blueprint loader does: material state follows the parameter
                 c.clearCache()
                 ops.append(["setMaterial", i, m])
             elif kind == "tinput":
@@ -1743,9 +1748,16 @@ def layout_borne_edit(rng, o, r, ops, allow_tree_change=False):
                 bl[k].setHeight(h)
                 a.calculateZCoords()
                 ops.append(["setHeight", i, k, h])
+            elif kind == "swap":
+                # two assemblies change places (their list positions stay: the known child-order finding F12 may show)
+                from armi.physics.fuelCycle import fuelHandlers
+                (i, a), (j, b) = rng.sample(assems, 2)
+                fuelHandlers.FuelHandler(o).swapAssemblies(a, b)
+                ops.append(["swapAssemblies", i, j, None])
             elif kind == "removeAssembly":
                 i, a = rng.choice(assems)
                 r.core.removeAssembly(a, discharge=False)
+                r.core.p.maxAssemNum = r.core.getMaxParam("assemNum")    # derived (processLoading recomputes it): keep it consistent
                 ops.append(["removeAssembly", i])
             applied.append(kind)
         except Exception:  # noqa: BLE001 - the API refuses the edit
@@ -1753,12 +1765,19 @@ def layout_borne_edit(rng, o, r, ops, allow_tree_change=False):
     return applied
 
 
+LABEL_POOL = ["EOL", "BOC", "-special", "-shuffled", "-a", "_b2"]
+
+
 def multi_statepoint_stream(ctx, rng):
-    """C04-b: statepoints A, B, C, ... of ONE reactor object written into ONE file, with layout-borne edits (and, in
-    some sequences, tree changes) in between; then every statepoint is loaded (latest first and in random order) and must
-    be observationally equal to the state AT THE TIME IT WAS WRITTEN; a loaded reactor is saved as a further
-    statepoint of the same file and loaded; all earlier statepoints are loaded once more afterwards (writing never
-    changes what another statepoint loads to); writing to an occupied address is refused and changes nothing."""
+    """C04-b/c: statepoints A, B, C, ... of ONE reactor object written into ONE file, with layout-borne edits (and, in
+    some sequences, tree changes) in between. Addresses differ by cycle, by node, or ONLY BY LABEL (c00n00 and
+    c00n00-shuffled). Every statepoint must load observationally equal to the state AT THE TIME IT WAS WRITTEN:
+      * through the ONE LONG-LIVED Database object that wrote them - interleaved with the writes, then latest first,
+        then in writing order, then the first one again (A, B, A), with getLayout() calls in between;
+      * after a delete (`del db[...]`) and re-write of an address with another state: the new state;
+      * through freshly opened Database objects (given inputs, negative node index, loadReadOnly);
+      * after a loaded reactor has been saved as a further statepoint of the same file.
+    Writing to an occupied address is refused and changes nothing."""
     from armi.bookkeeping.db import Database
 
     plan_ = ctx.pick([("smallest", 4, False), ("smallest", 3, True), ("c5g7", 3, True), ("godiva", 3, False)],
@@ -1769,20 +1788,46 @@ def multi_statepoint_stream(ctx, rng):
             o, r = load_fixture(fx)
         fn = f"{o.cs.caseTitle}.h5"      # named as a run names it: settings read back from the file take their title from it
         with silence():
+            pre = []
             if rng.random() < 0.5:
-                pre = []
                 try:
                     mutate(rng, o, r, 10, pre)
                 except Exception:  # noqa: BLE001
                     o, r = load_fixture(fx)
                     pre = []
-            else:
-                pre = []
-        ops, states = list(pre), []
+        ops, states, history = list(pre), [], []
         tree_step = rng.randrange(1, nsp)
         cycle, node = 0, 0
         db = Database(fn, "w")
         ok = True
+
+        def multi_extra(k):
+            return {"multi": {"history": [list(h) for h in history], "statepoint": list(states[k][0])}}
+
+        def compare_loaded(k, rk, stage):
+            (cy, nd_, lab), d, sops = states[k]
+            dk = dump(rk)
+            diffs = compare(d, dk, f"statepoint {k + 1} of {len(states)} in one file: saved vs loaded")
+            judge(ctx, fx, sops, diffs, f"{stage}: statepoint {k + 1}/{len(states)} c{cy}n{nd_}{lab or ''}", extra=multi_extra(k))
+            ctx.evaluations += len(d)
+            ctx.case((fx, "multi", seq, k, stage), nontrivial=True)
+
+        def load_via(dbo, k, stage):
+            """load statepoint k through the given OPEN Database object"""
+            (cy, nd_, lab), d, sops = states[k]
+            try:
+                if lab is None and rng.random() < 0.3:
+                    dbo.getLayout(cy, nd_)          # a public read of the layout: must not disturb later loads
+                    ctx.count("multi-statepoint: getLayout() between loads")
+                rk = dbo.load(cy, nd_, cs=o.cs, bp=r.blueprints, statePointName=lab, allowMissing=True)
+            except Exception as e:  # noqa: BLE001
+                ctx.fail("load-raises", "a written reactor state loads back",
+                         {"fixture": fx, "ops": sops, "stage": stage, "statepoint": [cy, nd_, lab], "of": len(states), **multi_extra(k)},
+                         observed=f"{type(e).__name__}: {e}"[:300], expected="a reactor equal to the saved one")
+                return
+            ctx.count("multi-statepoint: statepoint loaded (through the long-lived Database object)")
+            compare_loaded(k, rk, stage)
+
         with silence():
             db.open()
             db.writeInputsToDB(o.cs)
@@ -1793,12 +1838,15 @@ def multi_statepoint_stream(ctx, rng):
                     for kd in kinds:
                         ctx.count(f"multi-statepoint edit between writes: {kd}")
                     x = rng.random()
-                    if x < 0.5:
+                    used = {st[0][2] for st in states if st[0][:2] == (cycle, node)}
+                    free = [l for l in LABEL_POOL if l not in used]
+                    if x < 0.3 or not free:
                         node += rng.choice([1, 1, 2])
-                    elif x < 0.8:
+                    elif x < 0.45:
                         cycle, node = cycle + 1, 0
                     else:
-                        label = rng.choice(["EOL", "BOC", "-special"])
+                        label = rng.choice(free)        # SAME cycle and node, another label
+                        ctx.count("multi-statepoint: address differing from an earlier one only by its label")
                 try:
                     r.p.cycle, r.p.timeNode = cycle, node
                     refresh_derived(r)
@@ -1815,6 +1863,12 @@ def multi_statepoint_stream(ctx, rng):
                     ok = False
                     break
                 states.append(((cycle, node, label), d, list(ops)))
+                history.append(["w", [cycle, node, label], len(ops)])
+                # loads INTERLEAVED with the writes, through the object that is writing
+                if step > 0 and rng.random() < 0.6:
+                    for k in rng.sample(range(len(states)), min(2, len(states))):
+                        history.append(["l", list(states[k][0]), len(ops)])
+                        load_via(db, k, "loaded between writes through the writing Database object")
             # an occupied address: the second write must be refused (and, below, must not have changed the statepoint)
             if ok and states:
                 try:
@@ -1823,6 +1877,49 @@ def multi_statepoint_stream(ctx, rng):
                              {"fixture": fx, "ops": ops, "address": list(states[-1][0])}, observed="accepted", expected="ValueError")
                 except Exception:  # noqa: BLE001
                     ctx.count("multi-statepoint: write to an occupied address refused")
+            if len(states) >= 2:
+                # ONE long-lived object: latest first (B then A), in writing order, and the first one again (A, B, A)
+                n = len(states)
+                for k in list(range(n))[::-1] + (list(range(n)) if (ctx.thorough or n <= 4) else []) + [0]:
+                    history.append(["l", list(states[k][0]), len(ops)])
+                    load_via(db, k, "loaded through the one long-lived Database object")
+                # delete an address and write ANOTHER state there; its neighbours (same cycle/node, other label) stay
+                if rng.random() < 0.7:
+                    k = rng.randrange(n)
+                    (cy, nd_, lab), _d, _s = states[k]
+                    try:
+                        del db[(cy, nd_, lab)]
+                        history.append(["d", [cy, nd_, lab], len(ops)])
+                        ctx.count("multi-statepoint: statepoint deleted")
+                        try:
+                            db.load(cy, nd_, cs=o.cs, bp=r.blueprints, statePointName=lab, allowMissing=True)
+                            ctx.fail("deleted-statepoint-still-loads", "a deleted statepoint is gone", {"fixture": fx, "ops": ops, **multi_extra(k)},
+                                     observed="loaded", expected="KeyError")
+                        except KeyError:
+                            pass
+                        kinds = layout_borne_edit(rng, o, r, ops)
+                        for kd in kinds:
+                            ctx.count(f"multi-statepoint edit between writes: {kd}")
+                        r.p.cycle, r.p.timeNode = cy, nd_
+                        refresh_derived(r)
+                        d = dump(r)
+                        nneg = sum(1 for v in d.values() if isinstance(v.get("volume"), float) and v["volume"] < 0)
+                        if nneg > NEG_BASELINE.get(fx, 0):
+                            raise WriteRejected("negative component volume")
+                        db.writeToDB(r, statePointName=lab)
+                        states[k] = ((cy, nd_, lab), d, list(ops))
+                        history.append(["w", [cy, nd_, lab], len(ops)])
+                        ctx.count("multi-statepoint: deleted address written again with another state")
+                        for kk in [k] + [q for q in range(n) if q != k][:2] + [k]:
+                            history.append(["l", list(states[kk][0]), len(ops)])
+                            load_via(db, kk, "loaded through the long-lived Database object after delete + re-write")
+                    except WriteRejected:
+                        states.pop(k)
+                        ctx.count("multi-statepoint: re-write after delete refused (invalid edited state)")
+                    except Exception as e:  # noqa: BLE001
+                        ctx.fail("delete-rewrite-raises", "a deleted address can be written again", {"fixture": fx, "ops": ops},
+                                 observed=f"{type(e).__name__}: {e}"[:300])
+                        states.pop(k)
             db.close(True)
         if len(states) < 2:
             with contextlib.suppress(OSError):
@@ -1830,9 +1927,6 @@ def multi_statepoint_stream(ctx, rng):
             continue
         ctx.count(f"multi-statepoint files: {fx}")
         ctx.count("multi-statepoint: statepoints written", len(states))
-
-        def multi_extra(k):
-            return {"multi": {"addresses": [list(st[0]) for st in states], "opsAt": [len(st[2]) for st in states], "statepoint": k}}
 
         try:
             from armi.utils import getNodesPerCycle
@@ -1856,24 +1950,18 @@ def multi_statepoint_stream(ctx, rng):
                             else:
                                 how = "given inputs"
                                 rk = dbr.load(cy, nd_, cs=o.cs, bp=r.blueprints, statePointName=lab, allowMissing=True)
-                        ctx.count(f"multi-statepoint: statepoint loaded ({how})")
-                        dk = dump(rk)
+                        ctx.count(f"multi-statepoint: statepoint loaded ({how}, fresh Database object)")
                     except Exception as e:  # noqa: BLE001
                         ctx.fail("load-raises", "a written reactor state loads back",
-                                 {"fixture": fx, "ops": sops, "stage": stage, "statepoint": [cy, nd_, lab], "of": len(states)},
+                                 {"fixture": fx, "ops": sops, "stage": stage, "statepoint": [cy, nd_, lab], "of": len(states), **multi_extra(k)},
                                  observed=f"{type(e).__name__}: {e}"[:300], expected="a reactor equal to the saved one")
                         continue
-                diffs = compare(d, dk, f"statepoint {k + 1} of {len(states)} in one file: saved vs loaded")
-                judge(ctx, fx, sops, diffs, f"{stage}: statepoint {k + 1}/{len(states)} c{cy}n{nd_}{lab or ''}", extra=multi_extra(k))
-                ctx.evaluations += len(d)
-                ctx.case((fx, "multi", seq, k, stage), nontrivial=True)
-            return
+                    compare_loaded(k, rk, stage)
 
         order = list(range(len(states)))[::-1]            # latest first: B, then A
+        if not ctx.thorough and len(order) > 3:
+            order = order[:2] + [order[-1]]
         check_all("multi-statepoint", order)
-        if ctx.thorough or fx == "smallest":
-            rng.shuffle(order)
-            check_all("multi-statepoint again", order)
         # save a LOADED reactor into the file that already holds the other statepoints
         with silence():
             try:
@@ -1885,13 +1973,16 @@ def multi_statepoint_stream(ctx, rng):
                 rj.p.cycle, rj.p.timeNode = cycle + 1, 0
                 dsave = dump(rj)
                 dba.writeToDB(rj)
+                # ... and, through the same object, the statepoint it came from and the new one
+                load_via(dba, j, "loaded through the appending Database object after a further write")
+                rl0 = dba.load(cycle + 1, 0, cs=o.cs, bp=r.blueprints, allowMissing=True)
                 dba.close(True)
                 with Database(fn, "r") as dbr:
                     rl = dbr.load(cycle + 1, 0, cs=o.cs, bp=r.blueprints, allowMissing=True)
-                dl = dump(rl)
-                diffs = compare(dsave, dl, "loaded reactor saved as a further statepoint of the same file: saved vs loaded")
-                judge(ctx, fx, sops, [("resave-" + k_, c_, d_) for k_, c_, d_ in diffs],
-                      f"save-of-load into the same file (from statepoint {j + 1})", extra=multi_extra(j))
+                for what, rx in (("same object", rl0), ("fresh object", rl)):
+                    diffs = compare(dsave, dump(rx), f"loaded reactor saved as a further statepoint of the same file ({what}): saved vs loaded")
+                    judge(ctx, fx, sops, [("resave-" + k_, c_, d_) for k_, c_, d_ in diffs],
+                          f"save-of-load into the same file (from statepoint {j + 1}, {what})", extra=multi_extra(j))
                 ctx.count("multi-statepoint: loaded reactor saved into the same file")
             except Exception as e:  # noqa: BLE001
                 ctx.fail("resave-into-same-file-raises", "saving a loaded reactor gives a file that loads to the same state again",
@@ -1967,43 +2058,79 @@ def file_model_correspondence(ctx, rng, req, impl, cases):
         impl.append(real)
         cases.append({"fixture": "-", "op": "unpacklocs", "labels": labs, "data": data})
         ctx.case(("unpacklocs", tuple(labs), tuple(data)), nontrivial=bool(labs))
-    # write/load histories on one real file
+    # write / delete / load histories on ONE OPEN real file: addresses that share cycle and node and differ only by label;
+    # every statepoint carries a parameter-borne marker (core keff) and a LAYOUT-borne one (x of the spent fuel pool's
+    # free coordinate, stored in layout/location); loads go through the same long-lived object, and at the end through a
+    # freshly opened one, which must agree
+    from armi.reactor import grids
+
     with silence():
         o, r = load_fixture("smallest")
-    for h in range(ctx.pick(6, 40)):
+    sfp = [c for c in r if c is not r.core and isinstance(c.spatialLocator, grids.CoordinateLocation)]
+    sfp = sfp[0] if sfp else None
+    for h in range(ctx.pick(8, 50)):
         fn = f"hist-{h}.h5"
-        pool = [(rng.randrange(3), rng.randrange(3), rng.choice(["", "", "EOL"])) for _ in range(rng.randint(2, 4))]
-        ops, out = [], []
+        pool = [(rng.randrange(2), rng.randrange(2), rng.choice(["", "", "EOL", "-shuffled"])) for _ in range(rng.randint(2, 4))]
+        cy0, nd0 = pool[0][0], pool[0][1]
+        pool += [(cy0, nd0, "-x"), (cy0, nd0, "")]           # label-only neighbours of the first address
+        ops, out, expect = [], [], {}
         with silence():
             db = Database(fn, "w")
             db.open()
             db.writeInputsToDB(o.cs)
-            for k in range(rng.randint(4, 9)):
-                cy, nd_, lab = rng.choice(pool) if rng.random() < 0.85 else (7, 7, "")
+
+            def read(dbo, cy, nd_, lab):
+                try:
+                    rl = dbo.load(cy, nd_, cs=o.cs, bp=r.blueprints, statePointName=lab or None, allowMissing=True)
+                except KeyError:
+                    return "_"
+                if (int(rl.p.cycle), int(rl.p.timeNode)) != (cy, nd_):
+                    ctx.fail("statepoint-address-mismatch", "a statepoint loads with the cycle / node it was written under",
+                             {"fixture": "smallest", "history": ops[:]}, observed=[int(rl.p.cycle), int(rl.p.timeNode)], expected=[cy, nd_])
+                lsfp = [c for c in rl if c is not rl.core and isinstance(c.spatialLocator, grids.CoordinateLocation)]
+                lid = int(lsfp[0].spatialLocator.indices[0]) if lsfp else 0
+                return f"{int(rl.core.p.keff)}/{lid}"
+
+            for k in range(rng.randint(5, 11)):
+                cy, nd_, lab = rng.choice(pool) if rng.random() < 0.9 else (7, 7, "")
                 name = dbmod.getH5GroupName(cy, nd_, lab or None)
-                if rng.random() < 0.55:
-                    ident = 1 + k + 10 * h
+                x = rng.random()
+                if x < 0.45:
+                    pid, lid = 1 + k + 20 * h, (1000 + 7 * k + h if sfp is not None else 0)
                     r.p.cycle, r.p.timeNode = cy, nd_
-                    r.core.p.keff = float(ident)
-                    ops.append(f"[w,{name},{ident}]")
+                    r.core.p.keff = float(pid)
+                    if sfp is not None:
+                        sfp.spatialLocator = grids.CoordinateLocation(float(lid), 4987.25, 6000.75, None)
+                    ops.append(f"[w,{name},{pid},{lid}]")
                     try:
                         db.writeToDB(r, statePointName=lab or None)
                         out.append("ok")
                     except ValueError:
                         out.append("rej")
                     ctx.count("file history: write " + out[-1])
+                elif x < 0.6:
+                    ops.append(f"[d,{name}]")
+                    try:
+                        del db[(cy, nd_, lab or None)]
+                        out.append("ok")
+                    except KeyError:
+                        out.append("rej")
+                    ctx.count("file history: delete " + out[-1])
                 else:
                     ops.append(f"[r,{name}]")
-                    try:
-                        rl = db.load(cy, nd_, cs=o.cs, bp=r.blueprints, statePointName=lab or None, allowMissing=True)
-                        out.append(str(int(rl.core.p.keff)))
-                        if (int(rl.p.cycle), int(rl.p.timeNode)) != (cy, nd_):
-                            ctx.fail("statepoint-address-mismatch", "a statepoint loads with the cycle / node it was written under",
-                                     {"fixture": "smallest", "history": ops[:]}, observed=[int(rl.p.cycle), int(rl.p.timeNode)], expected=[cy, nd_])
-                    except KeyError:
-                        out.append("_")
-                    ctx.count("file history: load " + ("absent" if out[-1] == "_" else "present"))
+                    out.append(read(db, cy, nd_, lab))
+                    ctx.count("file history: load " + ("absent" if out[-1] == "_" else "present") + " (long-lived object)")
+            # every address of the pool once more through the long-lived object, then through a fresh one
+            final = sorted(set(pool))
+            for cy, nd_, lab in final:
+                ops.append(f"[r,{dbmod.getH5GroupName(cy, nd_, lab or None)}]")
+                out.append(read(db, cy, nd_, lab))
             db.close(True)
+            with Database(fn, "r") as dbf:
+                for cy, nd_, lab in final:
+                    ops.append(f"[r,{dbmod.getH5GroupName(cy, nd_, lab or None)}]")
+                    out.append(read(dbf, cy, nd_, lab))
+                    ctx.count("file history: load through a freshly opened object")
         with contextlib.suppress(OSError):
             os.remove(fn)
         req.append("filehist [" + ",".join(ops) + "]")
@@ -2187,6 +2314,12 @@ def search(ctx, disagreements, broken):
                         ops = []
                     except LoadFailed:
                         break
+    opsd = {d.case.get("op") for d in disagreements if isinstance(d.case, dict)}
+    with common.scratch_dir():
+        if opsd & {"filehist", "groupname"}:
+            multi_statepoint_stream(sub, sub.rng)       # the file model disagrees: several statepoints through one object
+        if "assignbp" in opsd:
+            blueprint_param_stream(sub, sub.rng)        # the load-order model disagrees: blueprint-assigned parameters
     seen = set()
     for f in sub.failures:
         if f.key not in known and f.key not in seen:
@@ -2195,32 +2328,47 @@ def search(ctx, disagreements, broken):
     return out
 
 
-def replay_multi(sub, fx, o, r, case):
-    """re-run a multi-statepoint history: apply the recorded edits slice by slice, write every statepoint up to the
-    failing one (and the later ones: a later write may be what damages an earlier statepoint) into one file, load"""
+def replay_multi(sub, fx, o, r, case, ops):
+    """re-run a multi-statepoint history on ONE open Database object: the recorded edits applied slice by slice, every
+    write / delete / load event in its recorded order; then every live address loaded through the same object in both
+    orders and through a fresh one, each compared with the state at its (last) write"""
     from armi.bookkeeping.db import Database
 
     m = case["multi"]
-    ops = case.get("ops", [])
-    k = m["statepoint"]
-    # ops recorded with the failure are those up to statepoint k; later statepoints are re-written without further edits
-    cuts = [min(n, len(ops)) for n in m["opsAt"]]
+    hist = m.get("history") or [["w", a, c] for a, c in zip(m.get("addresses", []), m.get("opsAt", []))]
     db = Database("replay-multi.h5", "w")
     db.open()
     db.writeInputsToDB(o.cs)
-    dumps, done = [], 0
-    for (cy, nd_, lab), cut in zip(m["addresses"], cuts):
-        apply_ops(r, ops[done:cut], o)
-        done = max(done, cut)
-        r.p.cycle, r.p.timeNode = cy, nd_
-        refresh_derived(r)
-        dumps.append(dump(r))
-        db.writeToDB(r, statePointName=lab)
+    dumps, done = {}, 0
+
+    def check(dbo, key, stage):
+        cy, nd_, lab = key
+        rk = dbo.load(cy, nd_, cs=o.cs, bp=r.blueprints, statePointName=lab, allowMissing=True)
+        judge(sub, fx, ops, compare(dumps[key], dump(rk), "replay"), stage)
+
+    for kind, addr, cut in hist:
+        key = (addr[0], addr[1], addr[2])
+        cut = min(cut, len(ops))
+        if cut > done:
+            apply_ops(r, ops[done:cut], o)
+            done = cut
+        if kind == "w":
+            r.p.cycle, r.p.timeNode = key[0], key[1]
+            refresh_derived(r)
+            dumps[key] = dump(r)
+            db.writeToDB(r, statePointName=key[2])
+        elif kind == "d":
+            del db[key]
+            dumps.pop(key, None)
+        elif kind == "l" and key in dumps:
+            check(db, key, case.get("stage", "replay"))
+    keys = list(dumps)
+    for key in keys[::-1] + keys:
+        check(db, key, case.get("stage", "replay"))
     db.close(True)
-    cy, nd_, lab = m["addresses"][k]
     with Database("replay-multi.h5", "r") as dbr:
-        rk = dbr.load(cy, nd_, cs=o.cs, bp=r.blueprints, statePointName=lab, allowMissing=True)
-    judge(sub, fx, ops, compare(dumps[k], dump(rk), "replay"), case.get("stage", "replay"))
+        for key in keys:
+            check(dbr, key, case.get("stage", "replay"))
 
 
 def replay(ctx, payload):
@@ -2236,7 +2384,7 @@ def replay(ctx, payload):
             o, r = load_fixture(fx)
         ops = [op if op[0] != "swapAssemblies" else [op[0], op[1], op[2], o] for op in case.get("ops", [])]
         if "multi" in case:
-            replay_multi(sub, fx, o, r, case)
+            replay_multi(sub, fx, o, r, case, ops)
         else:
             apply_ops(r, ops, o)
             refresh_derived(r)
